@@ -135,7 +135,13 @@ class ExpandedTraceback:
         self.show_filenames = show_filenames
         # The location of the error, like the frames of the traceback, is a line of the
         # whole file even while only a section of it is being executed
-        innermost = traceback.extract_tb(exc_info[2])[-1]
+        frames = traceback.extract_tb(exc_info[2])
+        innermost = frames[-1]
+        # ... and it is a line of the student's code, even when the error surfaced inside a library they called
+        for frame in reversed(frames):
+            if frame[0] in student_files:
+                innermost = frame
+                break
         self.line_number = innermost[1] + line_offsets.get(innermost[0], 0)
         # A SyntaxError in a student file is raised by whoever compiled it; the line it is about is in the exception
         if (isinstance(exception, SyntaxError) and exception.lineno is not None
